@@ -136,6 +136,7 @@ def run_unit(name, repo=None, rlimit=None, outdir=None, extra_args=(), solver=No
         return res
     res.unit = unit
     res.degraded = list(unit.lost_hints)
+    res.outside_reading = list(getattr(unit, "outside_reading", []))
     outdir = outdir or os.path.join(VERIF, "build")
     path = _pre_path
     cmd = ["verus", os.path.basename(path), "--output-json", "--time", "--error-format=json",
